@@ -206,14 +206,33 @@ func ruleSRTTags(p *Prog, l *Ledger, tier string) {
 	}
 	sort.Slice(consts, func(i, j int) bool { return consts[i].pos < consts[j].pos })
 	var opens, closes []string
+	// direct emission: every opening constant comes before every closing constant in the source; a
+	// writer driven by a table of (open, close) pairs, or one that builds "<"+name+">", has them
+	// interleaved or not as constants at all
+	direct, seenClose := true, false
 	for _, c := range consts {
 		if m := reCloseTag.FindStringSubmatch(c.s); m != nil {
 			closes = append(closes, m[1])
+			seenClose = true
 		} else if m := reOpenTag.FindStringSubmatch(c.s); m != nil {
 			opens = append(opens, m[1])
+			if seenClose {
+				direct = false
+			}
 		}
 	}
 	key := rule + "|writer-nesting"
+	if !direct || len(opens) < 3 {
+		// the order in which a table is walked is not visible in its constants: the nesting clause is
+		// not decided for this shape (it is for the direct one, which the pinned tree has)
+		l.Add(Ob{Rule: rule, Key: key, Status: Info, Why: fmt.Sprintf("tags are not emitted as a sequence of constants (opens %v, closes %v in source order): closing order not decided for a table-driven writer", opens, closes)})
+		for _, o := range opens {
+			if start[o] == nil {
+				l.Fail(rule, "LineItem.srtBytes", rule+"|writer-tag|"+o, "", "the writer emits <"+o+"> which the reader's tag switch does not handle")
+			}
+		}
+		return
+	}
 	rev := make([]string, len(opens))
 	for i, o := range opens {
 		rev[len(opens)-1-i] = o
